@@ -370,3 +370,118 @@ def register(gen, T):
                    f"def concatConstructions : Nat := {n_concat_made}\ndef macroArgConstructions : Nat := {n_macroarg_made}\n")
         out.append(T.footer("ArithSites"))
         return "".join(out)
+
+
+    @gen("PipelineProps")
+    def pipeline_props():
+        """typer/src/typer/pipelines.rs: how the duplicate-property checks compare, and the property tables of the
+        match arms (which arms assert "not set before", which return early on a compute pipeline)"""
+        from rustsrc import lean_str, matching, normws, fn_body, first_match, match_arms, ExtractError
+        F = "typer/src/typer/pipelines.rs"
+        text = strip_tests(T.src(F), matching)
+        pp_raw = fn_body(text, "parse_pipeline")
+        ss_raw = fn_body(text, "parse_static_sampler")
+        bs_raw = fn_body(text, "parse_blend_state")
+        pp, ss = normws(pp_raw), normws(ss_raw)
+
+        def compare_of(body, seq):
+            """what the duplicate check of this function compares: the property names as text, the Located<String> values
+            (text AND source location), or something this generator does not recognise"""
+            loop = (r'for i in 1\.\.' + seq + r'\.len\(\) \{ let new_property = &' + seq + r'\[i\]; let before_properties = &' + seq +
+                    r'\[\.\.i\]; for before_prop in before_properties \{ if (.*?) \{ return Err\(TyperError::PipelinePropertyDuplicate\( new_property\.property\.location, \)\); \} \} \}')
+            m = re.search(loop, body)
+            cond = m.group(1).strip() if m else None
+            if cond is None:
+                # a helper may have taken the loop over: look at every comparison of two `.property` values in the file
+                conds = re.findall(r'(\w+\.property(?:\.\w+(?:\(\))?)*) == (\w+\.property(?:\.\w+(?:\(\))?)*)', normws(text))
+                if len(conds) == 1 or (conds and all(c == conds[0] for c in conds)):
+                    a, b = conds[0]
+                    cond = f"{a} == {b}"
+            if cond is None:
+                return ".other", False
+            sides = [x.strip() for x in cond.split("==")]
+            if len(sides) != 2:
+                return ".other", bool(m)
+            def kind(x):
+                if re.fullmatch(r'\w+\.property\.as_str\(\)', x) or re.fullmatch(r'\w+\.property\.node(?:\.as_str\(\))?', x) or re.fullmatch(r'\*?\w+\.property\.node', x):
+                    return "text"
+                if re.fullmatch(r'\w+\.property', x):
+                    return "located"
+                return "other"
+            ks = {kind(x) for x in sides}
+            if ks == {"text"}:
+                return ".text", bool(m)
+            if ks == {"located"}:
+                return ".located", bool(m)
+            return ".other", bool(m)
+
+        pipe_cmp, pipe_inline = compare_of(pp, r'def\.properties')
+        samp_cmp, samp_inline = compare_of(ss, r'properties')
+
+        def arms_of(body, scrutinee=r'property\.property\.as_str\(\)', start=0):
+            scrut, arms_text, end = first_match(body, scrutinee, start)
+            out = []
+            for pats, guard, result in match_arms(arms_text):
+                names = [p[1:-1] for p in pats if re.fullmatch(r'"[A-Za-z0-9_]+"', p)]
+                out.append((names, guard, result, pats))
+            return out, end
+
+        stage_arms, after_stage = arms_of(pp_raw)
+        state_arms, _ = arms_of(pp_raw, start=after_stage)
+        samp_arms, _ = arms_of(ss_raw)
+        blend_arms, _ = arms_of(bs_raw)
+        stage_names = [n for names, _, res, _ in stage_arms for n in names if "add_stage(" in res]
+        gate_rx = r'^\{ if is_compute \{ return Err\(TyperError::PipelinePropertyRequiresGraphicsPipeline\( property\.property\.location, \)\); \}'
+        state_rows = []
+        for names, guard, res, pats in state_arms:
+            if not names:
+                continue
+            gated = bool(re.search(gate_rx, res))
+            asserts = re.findall(r'assert!\(([^;]*?)\);', res)
+            # an asserting arm is modelled only in the shape "gate, assert the slot is unset, set the slot"
+            state_rows.append((names, gated, len(asserts) > 0))
+        out = [T.header("PipelineProps", [F])]
+        out.append("/-- what a duplicate-property check compares: the property names as text (`.as_str()` / `.node`), the whole\n"
+                   "    `Located<String>` values (text *and* source location — two occurrences never compare equal), or unrecognised -/\n"
+                   "inductive CmpSrc where\n  | text\n  | located\n  | other\n  deriving DecidableEq, Repr, Inhabited\n\n")
+        out.append(f"/-- comparison of the duplicate check that guards `parse_pipeline` -/\ndef pipelineDupCompare : CmpSrc := {pipe_cmp}\n")
+        out.append(f"/-- comparison of the duplicate check that guards `parse_static_sampler` -/\ndef samplerDupCompare : CmpSrc := {samp_cmp}\n\n")
+        facts = {
+            # both loops compare the property NAMES as text
+            "duplicatePropertyCheckComparesText": pipe_cmp == ".text" and samp_cmp == ".text",
+            # ... in the all-pairs loop `for i in 1..len { for before in [..i] { .. } }` that reports the later occurrence
+            "duplicateCheckIsThePairwiseLoop": pipe_inline and samp_inline,
+            # the check runs before any property is interpreted: it precedes the stage loop and the state loop
+            "duplicateCheckPrecedesPropertyLoops": bool(re.search(r'PipelinePropertyDuplicate.*?let mut remaining_properties = Vec::new\(\); for property in &def\.properties \{ match property\.property\.as_str\(\) \{', pp))
+                                                   and len(re.findall(r'PipelinePropertyDuplicate', pp)) == 1
+                                                   and bool(re.search(r'^(?:(?!for property in properties).)*PipelinePropertyDuplicate.*for property in properties \{ match property\.property\.as_str\(\) \{', ss)),
+            # the state loop walks exactly the properties the stage loop did not consume, in source order, matching the name as text
+            "stateLoopWalksRemainingProperties": bool(re.search(r'_ => remaining_properties\.push\(property\), \} \}', pp))
+                                                 and bool(re.search(r'for property in &remaining_properties \{ match property\.property\.as_str\(\) \{', pp))
+                                                 and len(re.findall(r'remaining_properties\.push\(', pp)) == 1,
+            # the flags / slots the asserts test are written by their own arm only
+            "cullFlagWrittenByItsArmOnly": len(re.findall(r'cull_mode_set = ', pp)) == 2 and bool(re.search(r'assert!\(!cull_mode_set\); cull_mode_set = true;', pp)),
+            "windingFlagWrittenByItsArmOnly": len(re.findall(r'winding_order_set = ', pp)) == 2 and bool(re.search(r'assert!\(!winding_order_set\); winding_order_set = true;', pp)),
+            "depthSlotWrittenByItsArmOnly": len(re.findall(r'gpo\.depth_target_format = ', pp)) == 1 and bool(re.search(r'assert!\(gpo\.depth_target_format\.is_none\(\)\); gpo\.depth_target_format = Some\(', pp)),
+            "renderTargetSlotIsTheNameDigit": bool(re.search(r'let index = \(property\.property\.as_str\(\)\.as_bytes\(\)\[18\] - b\'0\'\) as usize; if gpo\.render_target_formats\.len\(\) < index \+ 1 \{ gpo\.render_target_formats\.resize\(index \+ 1, None\); \} assert!\(gpo\.render_target_formats\[index\]\.is_none\(\)\); gpo\.render_target_formats\[index\] = Some\(', pp))
+                                              and len(re.findall(r'gpo\.render_target_formats\[index\] = ', pp)) == 1,
+            # on a compute pipeline the gated arms return before they write, so the two closing asserts hold
+            "computeClosingAssertsFollowGatedWrites": bool(re.search(r'\} else \{ assert!\(gpo\.render_target_formats\.is_empty\(\)\); assert!\(gpo\.depth_target_format\.is_none\(\)\); \}', pp)),
+            "isComputeIsFirstStage": bool(re.search(r'let is_compute = pipeline\.stages\[0\]\.stage == ir::ShaderStage::Compute;', pp)),
+        }
+        out.append("/-- syntactic facts about the duplicate checks and the state loop of parse_pipeline / parse_static_sampler -/\n")
+        out.append("structure PipelineShape where\n" + "".join(f"  {k} : Bool\n" for k in facts) + "  deriving DecidableEq, Repr\n\n")
+        out.append("def pipelineShape : PipelineShape := { " + ", ".join(f"{k} := {'true' if v else 'false'}" for k, v in facts.items()) + " }\n\n")
+
+        def names_list(xs):
+            return "[" + ", ".join(lean_str(x) for x in xs) + "]"
+        out.append("/-- property names the first loop of parse_pipeline hands to add_stage -/\n"
+                   f"def stageProps : List String := {names_list(stage_names)}\n\n")
+        out.append("/-- arms of the state loop of parse_pipeline: (names of the arm, returns PipelinePropertyRequiresGraphicsPipeline first on a\n"
+                   "    compute pipeline, contains an `assert!` that the flag / slot of this name is still unset) -/\n"
+                   "def stateArms : List (List String × Bool × Bool) := [\n" +
+                   ",\n".join(f"  ({names_list(n)}, {'true' if g else 'false'}, {'true' if a else 'false'})" for n, g, a in state_rows) + "\n]\n\n")
+        out.append(f"/-- property names matched by parse_blend_state -/\ndef blendProps : List String := {names_list([n for names, _, _, _ in blend_arms for n in names])}\n\n")
+        out.append(f"/-- property names matched by parse_static_sampler -/\ndef samplerProps : List String := {names_list([n for names, _, _, _ in samp_arms for n in names])}\n")
+        out.append(T.footer("PipelineProps"))
+        return "".join(out)
